@@ -125,4 +125,3 @@ def paseto_v4 : CrateFacts := { nFeatures := 9, edges := [(0, 1), (2, 3), (4, 6)
 /-- feature names of paseto-v4, by index: 0=signing, 1=verifying, 2=encrypting, 3=decrypting, 4=paserk, 5=id, 6=pbkw, 7=pie-wrap, 8=pke -/
 def paseto_v4_names : List String := ["signing", "verifying", "encrypting", "decrypting", "paserk", "id", "pbkw", "pie-wrap", "pke"]
 end PM.Extracted.Feat
-
